@@ -511,11 +511,13 @@ where
     let state = ParserState::new(input);
 
     match f(state) {
-        Ok(state) => {
+        Ok(state) if !state.reached_call_limit() => {
             let len = state.queue.len();
             Ok(new(Rc::new(state.queue), input, None, 0, len))
         }
-        Err(mut state) => {
+        // A refused call is an `Err` that `repeat`, `optional` and negative lookahead
+        // absorb, so a parse that hit the call limit must not be reported as a success.
+        Ok(mut state) | Err(mut state) => {
             let variant = if state.reached_call_limit() {
                 ErrorVariant::CustomError {
                     message: "call limit reached".to_owned(),
